@@ -9,6 +9,8 @@ package siml
 // calls are accepted.
 
 import (
+	"bytes"
+	"crypto/sha256"
 	"fmt"
 	nkeys "github.com/nspcc-dev/neo-go/pkg/crypto/keys"
 	"sort"
@@ -94,7 +96,8 @@ func extrasBody(r *Run) {
 		r.Checkpoint()
 		return
 	}
-	w := r.Own(NewFSWorld(FSOpts{N: n, Label: "extras", With: []string{"netmap", "balance", "neofsid", "container", "reputation", "audit", "proxy"}}))
+	w := r.Own(NewFSWorld(FSOpts{N: n, Label: "extras", With: []string{"netmap", "balance", "neofsid", "container", "reputation", "audit", "proxy"},
+		NetmapCfg: []any{[]byte("ContainerFee"), []byte{0}, []byte("ContainerAliasFee"), []byte{0}}}))
 	alph := w.Deploy("alphabet0", CompileContract("alphabet"), []any{false, w.C["netmap"].Hash, w.C["proxy"].Hash, "\u2c00\u2c38\u2c4f", int64(0), int64(n)})
 	w.blocksFed = 0
 	A := []Signer{w.Alphabet}
@@ -143,7 +146,32 @@ func extrasBody(r *Run) {
 	submit(w, "reputation.put", A, w.C["reputation"].Hash, "put", int64(3), DetKey("extras/peer").PublicKey().Bytes(), []byte("trust"))
 	submit(w, "neofsid.addKey", A, w.C["neofsid"].Hash, "addKey", append([]byte{0x35}, make([]byte, 24)...), []any{stranger.PublicKey().Bytes()})
 	submit(w, "neofsid.removeKey", A, w.C["neofsid"].Hash, "removeKey", append([]byte{0x35}, make([]byte, 24)...), []any{stranger.PublicKey().Bytes()})
+	// several of everything a reader returns as a list inside its result: three
+	// storage nodes in the map, two containers of one owner, three size
+	// estimations for one of them (decoders that share one element between the
+	// entries of a list only show with more than one)
+	var nodes []*nkeys.PrivateKey
+	for i := 0; i < 3; i++ {
+		k := DetKey(fmt.Sprintf("extras/node/%d", i))
+		nodes = append(nodes, k)
+		info := append(append([]byte{0x0a, 33}, k.PublicKey().Bytes()...), fmt.Sprintf("|extras-node|%d", i)...)
+		submit(w, fmt.Sprintf("netmap.addPeerIR(node%d)", i), A, w.C["netmap"].Hash, "addPeerIR", info)
+	}
 	submit(w, "netmap.newEpoch", A, w.C["netmap"].Hash, "newEpoch", int64(1))
+	// (estimations are taken from the nodes of the previous epoch's map)
+	submit(w, "netmap.newEpoch(2)", A, w.C["netmap"].Hash, "newEpoch", int64(2))
+	ownerID := stOwnerID(user.GetScriptHash())
+	var cids [][]byte
+	for i := 0; i < 2; i++ {
+		blob := append(append([]byte{0x0a, 0, 0x12, 27, 0x0a, 25}, ownerID...), fmt.Sprintf("|extras-container|%d", i)...)
+		h := sha256.Sum256(blob)
+		cids = append(cids, h[:])
+		submit(w, fmt.Sprintf("container.put(#%d)", i), A, w.C["container"].Hash, "put", blob, bytes.Repeat([]byte{7}, 64), user.PublicKey().Bytes(), []byte{})
+	}
+	for i, k := range nodes {
+		submit(w, fmt.Sprintf("container.putContainerSize(node%d)", i), []Signer{Single(fmt.Sprintf("node%d", i), k)}, w.C["container"].Hash, "putContainerSize", int64(2), cids[0], int64(1000+i*37), k.PublicKey().Bytes())
+	}
+	submit(w, "reputation.put (second value)", A, w.C["reputation"].Hash, "put", int64(3), DetKey("extras/peer").PublicKey().Bytes(), []byte("trust-2"))
 	if doUpdates {
 		cur, _ := TreeVersions()
 		var keys []string
